@@ -410,3 +410,224 @@ Corollary ea_dump_repaired_bytewise : forall W rt s e data st,
   ea_dump DumpRepaired W rt s e data st =
   with_count (fun d => (e - s + 1, d)) (dump_bytes (Z.to_nat (e - s + 1)) W rt s 0 data st).
 Proof. intros. apply ea_dump_bytewise; auto. Qed.
+
+(* ================================================================== Part 7 *)
+Lemma zlen_upd : forall l i b, 0 <= i < zlen l -> zlen (upd l i b) = zlen l.
+Proof. intros. unfold upd. apply zlen_splice; [lia|]. change (zlen [b]) with 1. lia. Qed.
+Lemma znth_upd_same : forall l i b, 0 <= i < zlen l -> znth (upd l i b) i = b.
+Proof.
+  intros. unfold upd. rewrite znth_splice_in; [|lia|lia|change (zlen [b]) with 1; lia].
+  replace (i - i) with 0 by lia. reflexivity.
+Qed.
+Lemma znth_upd_other : forall l i b x, 0 <= i < zlen l -> x <> i -> znth (upd l i b) x = znth l x.
+Proof. intros. unfold upd. apply znth_splice_out; [lia| |]; change (zlen [b]) with 1; lia. Qed.
+
+Lemma peek_stores : forall W m a st1 st2, stores st1 = stores st2 -> peek W m a st1 = peek W m a st2.
+Proof. intros W m a st1 st2 H. unfold peek, get_store. rewrite H. reflexivity. Qed.
+
+(* a single EaRead of an attached address whose memory can serve it *)
+Lemma ea_read_ok : forall W rt a st m b,
+  seg_at rt a = Some m -> peek W m a st = Some b -> ea_read W rt a st = Ok b (log_ev st (m, 0, a, 0)).
+Proof. intros W rt a st m b Hs Hp. unfold ea_read, mem_read. rewrite Hs, Hp. reflexivity. Qed.
+
+(* the reads a dump of cnt addresses from a performs, in order *)
+Fixpoint dump_events (rt : routing) (a : Z) (cnt : nat) : list event :=
+  match cnt with
+  | O => []
+  | S c =>
+      match seg_at rt a with
+      | Some m => (m, 0, a, 0) :: dump_events rt (a + 1) c
+      | None => dump_events rt (a + 1) c
+      end
+  end.
+
+Definition read_value (W : world) (st : state) (m a : Z) : Z :=
+  match peek W m a st with Some b => b | None => 0 end.
+
+Lemma dump_bytes_values : forall cnt W rt a i data st,
+  0 <= i -> i + Z.of_nat cnt <= zlen data ->
+  (forall j m, 0 <= j < Z.of_nat cnt -> seg_at rt (a + j) = Some m -> peek W m (a + j) st <> None) ->
+  exists d st',
+    dump_bytes cnt W rt a i data st = Ok d st' /\
+    zlen d = zlen data /\ stores st' = stores st /\
+    log st' = rev (dump_events rt a cnt) ++ log st /\
+    (forall j, 0 <= j < Z.of_nat cnt ->
+       znth d (i + j) = match seg_at rt (a + j) with Some m => read_value W st m (a + j) | None => znth data (i + j) end) /\
+    (forall x, x < i \/ i + Z.of_nat cnt <= x -> znth d x = znth data x).
+Proof.
+  induction cnt as [|c IH]; intros W rt a i data st Hi Hlen Hpk.
+  - exists data, st. cbn [dump_bytes dump_events rev app Z.of_nat]. repeat split; try reflexivity. intros j Hj. lia.
+  - rewrite Nat2Z.inj_succ in *. cbn [dump_bytes dump_events].
+    assert (Ha0 : a + 0 = a) by lia.
+    destruct (seg_at rt a) as [m|] eqn:Es.
+    + assert (Hp : peek W m a st <> None) by (rewrite <- Ha0 at 1; apply Hpk; [lia|rewrite Ha0; exact Es]).
+      destruct (peek W m a st) as [b|] eqn:Ep; [|congruence].
+      rewrite (ea_read_ok W rt a st m b Es Ep).
+      destruct (i <? zlen data) eqn:Ei; [|lia].
+      set (st1 := log_ev st (m, 0, a, 0)).
+      assert (Hst1 : stores st1 = stores st) by reflexivity.
+      destruct (IH W rt (a + 1) (i + 1) (upd data i b) st1) as [d [st' [H1 [H2 [H3 [H4 [H5 H6]]]]]]].
+      * lia.
+      * rewrite zlen_upd by lia. lia.
+      * intros j m' Hj Hsj. rewrite (peek_stores W m' _ st1 st Hst1).
+        replace (a + 1 + j) with (a + (j + 1)) in * by lia. apply Hpk; [lia|exact Hsj].
+      * exists d, st'. rewrite zlen_upd in H2 by lia.
+        split; [exact H1|]. split; [exact H2|]. split; [rewrite H3; exact Hst1|].
+        split. { rewrite H4. cbn [rev]. rewrite <- app_assoc. reflexivity. }
+        split.
+        -- intros j Hj. destruct (Z.eq_dec j 0) as [Hj0|Hj0].
+           ++ subst j. rewrite !Z.add_0_r. rewrite Es. rewrite H6 by lia.
+              rewrite znth_upd_same by lia. unfold read_value. rewrite Ep. reflexivity.
+           ++ replace (i + j) with (i + 1 + (j - 1)) by lia. rewrite H5 by lia.
+              replace (a + 1 + (j - 1)) with (a + j) by lia.
+              destruct (seg_at rt (a + j)) as [m'|].
+              ** unfold read_value. rewrite (peek_stores W m' _ st1 st Hst1). reflexivity.
+              ** apply znth_upd_other; lia.
+        -- intros x Hx. rewrite H6 by lia. apply znth_upd_other; lia.
+    + destruct (IH W rt (a + 1) (i + 1) data st) as [d [st' [H1 [H2 [H3 [H4 [H5 H6]]]]]]].
+      * lia.
+      * lia.
+      * intros j m' Hj Hsj. replace (a + 1 + j) with (a + (j + 1)) in * by lia. apply Hpk; [lia|exact Hsj].
+      * exists d, st'. split; [exact H1|]. split; [exact H2|]. split; [exact H3|]. split; [exact H4|]. split.
+        -- intros j Hj. destruct (Z.eq_dec j 0) as [Hj0|Hj0].
+           ++ subst j. rewrite !Z.add_0_r. rewrite Es. apply H6. lia.
+           ++ replace (i + j) with (i + 1 + (j - 1)) by lia. rewrite H5 by lia.
+              replace (a + 1 + (j - 1)) with (a + j) by lia. reflexivity.
+        -- intros x Hx. apply H6. lia.
+Qed.
+
+(* EaDump in terms of values.  Hypotheses: the interpretation (start <= end < 2^24, data long enough) and
+   "every attached address in the range can be read" (its memory does not panic on it).
+   Conclusion: returns end-start+1; position i holds exactly the byte a single EaRead(start+i) returns
+   when start+i is attached and is untouched otherwise; nothing beyond the range is touched; the memories
+   receive exactly the attached addresses of the range, each once, in ascending order, unmodified. *)
+Theorem ea_dump_values : forall v W rt s e data st,
+  0 <= s <= e -> e < ABITS ->
+  (v = DumpRepaired \/ s mod 16 = 0) ->
+  e - s + 1 <= zlen data ->
+  (forall a m, s <= a <= e -> seg_at rt a = Some m -> peek W m a st <> None) ->
+  exists d st',
+    ea_dump v W rt s e data st = Ok (e - s + 1, d) st' /\
+    zlen d = zlen data /\
+    (forall i, 0 <= i < e - s + 1 ->
+       match seg_at rt (s + i) with
+       | Some m => ea_read W rt (s + i) st = Ok (znth d i) (log_ev st (m, 0, s + i, 0))
+       | None => znth d i = znth data i
+       end) /\
+    (forall i, e - s + 1 <= i -> znth d i = znth data i) /\
+    stores st' = stores st /\
+    log st' = rev (dump_events rt s (Z.to_nat (e - s + 1))) ++ log st.
+Proof.
+  intros v W rt s e data st Hse He Hv Hlen Hpk.
+  rewrite ea_dump_bytewise by assumption.
+  destruct (dump_bytes_values (Z.to_nat (e - s + 1)) W rt s 0 data st) as [d [st' [H1 [H2 [H3 [H4 [H5 H6]]]]]]].
+  - lia.
+  - rewrite Z2Nat.id by lia. lia.
+  - intros j m Hj Hs. rewrite Z2Nat.id in Hj by lia. apply Hpk; [lia|exact Hs].
+  - rewrite Z2Nat.id in * by lia. exists d, st'. rewrite H1. cbn [with_count].
+    split; [reflexivity|]. split; [exact H2|]. split.
+    { intros i Hi. specialize (H5 i Hi). rewrite Z.add_0_l in H5.
+      destruct (seg_at rt (s + i)) as [m|] eqn:Es; [|exact H5].
+      assert (Hp : peek W m (s + i) st <> None) by (apply Hpk; [lia|exact Es]).
+      unfold read_value in H5. destruct (peek W m (s + i) st) as [b|] eqn:Ep; [|congruence].
+      rewrite H5. apply ea_read_ok; assumption. }
+    split; [intros i Hi; apply H6; lia|]. split; [exact H3|exact H4].
+Qed.
+
+(* the whole of C13's EaDump clause for the repaired loop, after any history of Attach calls:
+   [last_cover h] decides which memory serves which position *)
+Theorem C13_dump_after_history : forall W h s e data st,
+  Forall call_wf h ->
+  0 <= s <= e -> e < ABITS -> e - s + 1 <= zlen data ->
+  (forall a m, s <= a <= e -> last_cover h a = Some m -> peek W m a st <> None) ->
+  exists d st',
+    ea_dump DumpRepaired W (run_calls empty_rt h) s e data st = Ok (e - s + 1, d) st' /\
+    zlen d = zlen data /\
+    (forall i, 0 <= i < e - s + 1 ->
+       match last_cover h (s + i) with
+       | Some m => mem_read W m (s + i) st = Ok (znth d i) (log_ev st (m, 0, s + i, 0))
+       | None => znth d i = znth data i
+       end) /\
+    (forall i, e - s + 1 <= i -> znth d i = znth data i) /\
+    stores st' = stores st.
+Proof.
+  intros W h s e data st Hwf Hse He Hlen Hpk.
+  destruct (ea_dump_values DumpRepaired W (run_calls empty_rt h) s e data st) as [d [st' [H1 [H2 [H3 [H4 [H5 _]]]]]]];
+    try assumption; [left; reflexivity| |].
+  - intros a m Ha Hs. rewrite route_history in Hs by (try assumption; unfold ABITS in *; lia). apply Hpk; assumption.
+  - exists d, st'. split; [exact H1|]. split; [exact H2|]. split; [|split; assumption].
+    intros i Hi. specialize (H3 i Hi).
+    assert (Hr : 0 <= s + i < ABITS) by (unfold ABITS in *; lia).
+    rewrite route_history in H3 by assumption.
+    destruct (last_cover h (s + i)) as [m|] eqn:El; [|exact H3].
+    rewrite ea_read_after_history in H3 by assumption. rewrite El in H3. exact H3.
+Qed.
+
+(* ================================================================== Part 8 *)
+(* two 16-byte RAMs, memory 1 at $00-$0F holding 100.., memory 2 at $10-$1F holding 200.. *)
+Definition w2_world : world := world_of [(1, KRam 0); (2, KRam 16)].
+Definition w2_state : state := mkState [] [(1, ziota 100 16); (2, ziota 200 16)].
+Definition w2_hist : list call := [mkCall 1 0 15; mkCall 2 16 31].
+Definition w2_rt : routing := run_calls empty_rt w2_hist.
+Definition sentinel (n : nat) : list Z := repeat 170 n.
+
+(* today's loop, EaDump(8, 23): memory 1 is handed the addresses 16.. that belong to memory 2, and the
+   call dies in memory 1's slice index -- although every single EaRead of 8..23 succeeds *)
+Theorem C13_dump_refuted :
+  (forall a, 8 <= a <= 23 -> exists b st1, ea_read w2_world w2_rt a w2_state = Ok b st1) /\
+  exists st', ea_dump DumpCurrent w2_world w2_rt 8 23 (sentinel 16) w2_state = Panic st' /\
+              hd (0, 0, 0, 0) (log st') = (1, 0, 16, 0) /\ last_cover w2_hist 16 = Some 2.
+Proof.
+  split.
+  - intros a Ha.
+    assert (H : a = 8 \/ a = 9 \/ a = 10 \/ a = 11 \/ a = 12 \/ a = 13 \/ a = 14 \/ a = 15 \/ a = 16 \/ a = 17 \/
+                a = 18 \/ a = 19 \/ a = 20 \/ a = 21 \/ a = 22 \/ a = 23) by lia.
+    repeat (destruct H as [H|H]; [subst a; vm_compute; eauto|]). subst a; vm_compute; eauto.
+  - eexists. split; [vm_compute; reflexivity|]. split; vm_compute; reflexivity.
+Qed.
+
+(* the same call with the repaired loop *)
+Example C13_dump_repaired_witness :
+  exists st', ea_dump DumpRepaired w2_world w2_rt 8 23 (sentinel 16) w2_state =
+              Ok (16, [108; 109; 110; 111; 112; 113; 114; 115; 200; 201; 202; 203; 204; 205; 206; 207]) st'.
+Proof. eexists. vm_compute. reflexivity. Qed.
+
+(* silent form of the same defect (memories that answer any address): the count is right, but positions
+   8..15 were read through memory 1 although the addresses 16..23 belong to memory 2 *)
+Example C13_dump_refuted_silent :
+  let rt := w2_rt in let W := world_of [] in
+  exists d st', ea_dump DumpCurrent W rt 8 23 (sentinel 16) (mkState [] []) = Ok (16, d) st' /\
+                znth d 8 = rec_val 1 16 /\ rec_val 1 16 <> rec_val 2 16 /\
+                exists st1, ea_read W rt 16 (mkState [] []) = Ok (rec_val 2 16) st1.
+Proof. do 2 eexists. split; [vm_compute; reflexivity|]. split; [reflexivity|]. split; [vm_compute; discriminate|]. eexists. vm_compute. reflexivity. Qed.
+
+(* non-vacuity: a history with an overlap, a re-attach, a misaligned call and a hole *)
+Definition ex_hist : list call :=
+  [mkCall 1 0 63; mkCall 2 16 31; mkCall 3 17 47; mkCall 4 32 46; mkCall 1 16 31; mkCall 5 96 127].
+Example ex_hist_wf : Forall call_wf ex_hist.
+Proof. repeat constructor; unfold in_u32; cbn; lia. Qed.
+Example ex_hist_routes :
+  map (last_cover ex_hist) [0; 15; 16; 31; 32; 47; 63; 64; 95; 96; 127; 128] =
+  [Some 1; Some 1; Some 1; Some 1; Some 1; Some 1; Some 1; None; None; Some 5; Some 5; None] /\
+  map (seg_at (run_calls empty_rt ex_hist)) [0; 15; 16; 31; 32; 47; 63; 64; 95; 96; 127; 128] =
+  map (last_cover ex_hist) [0; 15; 16; 31; 32; 47; 63; 64; 95; 96; 127; 128] /\
+  map alignedb ex_hist = [true; true; false; false; true; true] /\
+  last_cover [mkCall 1 0 63; mkCall 2 16 31] 20 = Some 2.
+Proof. vm_compute. repeat split; reflexivity. Qed.
+(* the hypotheses of C13_dump_after_history are satisfiable across a boundary and a hole *)
+Example ex_dump_hyps :
+  let h := [mkCall 1 0 15; mkCall 2 32 47] in
+  let W := world_of [(1, KRam 0); (2, KRam 32)] in
+  let st := mkState [] [(1, ziota 100 16); (2, ziota 200 16)] in
+  forallb (fun a => match last_cover h a with
+                    | Some m => match peek W m a st with Some _ => true | None => false end
+                    | None => true
+                    end) (ziota 5 36) = true /\
+  exists st', ea_dump DumpRepaired W (run_calls empty_rt h) 5 40 (sentinel 36) st =
+    Ok (36, ziota 105 11 ++ sentinel 16 ++ ziota 200 9) st'.
+Proof. cbv zeta. split; [vm_compute; reflexivity|]. eexists. vm_compute. reflexivity. Qed.
+(* an Attach that runs past the table panics; one that ends at the table's end does not *)
+Example ex_attach_panics :
+  call_panics (mkCall 1 16777200 16777231) = true /\ call_panics (mkCall 1 16777200 16777215) = false /\
+  alignedb (mkCall 1 0 4294967295) = true /\ call_panics (mkCall 1 32 15) = false.
+Proof. vm_compute. repeat split; reflexivity. Qed.
